@@ -338,12 +338,21 @@ def deep_path(b, op_or_path, max_hops=8, at=None):
         return None
     ap = op_or_path if isinstance(op_or_path, list) else b.access_path(op_or_path, at=at)
     for _ in range(max_hops):
-        if not ap or not ap[0].startswith('agg@') or len(ap) < 2 or not ap[1].isdigit():
+        if not ap or not ap[0].startswith('agg@') or len(ap) < 2:
             break
         m = re.match(r'agg@bb(\d+)\.(\d+)$', ap[0])
         st = b.blocks[int(m.group(1))]['stmts'][int(m.group(2))]
         ops = st['rv'].get('ops') or []
-        k = int(ap[1])
+        if ap[1].startswith('as:') and len(ap) >= 3 and st['rv'].get('variant_name') == ap[1][3:]:
+            # Ok(x) built here and read back as (.. as Ok).0 (a helper written in place returns it, the caller matches on it)
+            ap = [ap[0]] + ap[2:]
+        fields = st['rv'].get('fields') or []
+        if ap[1].isdigit():
+            k = int(ap[1])
+        elif ap[1] in fields:
+            k = fields.index(ap[1])
+        else:
+            break
         if k >= len(ops):
             break
         inner = b.access_path(ops[k], at=int(m.group(1)))
@@ -681,3 +690,18 @@ def base_path(b, op, at=None, depth=0):
         if site and site[0].callee and site[0].callee.name in ('deref', 'deref_mut', 'as_ref', 'as_mut', 'borrow', 'borrow_mut', 'iter', 'into_iter', 'iter_mut') and site[0].args:
             return base_path(b, site[0].args[0], at=site[0].bb, depth=depth + 1)
     return ap
+
+
+def value_built_from(b, op, at=None):
+    """the deep path of `op` without references; a one-operand aggregate (`Dependency::Asset(key)`, `Wrapper(key)`) is
+    looked through, so that a key wrapped for the look-up still names the parameter it was made from"""
+    dp = strip_refs(deep_path(b, op, at=at))
+    for _ in range(3):
+        m = re.match(r'agg@bb(\d+)\.(\d+)$', dp[0]) if dp and len(dp) == 1 else None
+        if not m:
+            break
+        ops = b.blocks[int(m.group(1))]['stmts'][int(m.group(2))]['rv'].get('ops') or []
+        if len(ops) != 1:
+            break
+        dp = strip_refs(deep_path(b, ops[0], at=int(m.group(1))))
+    return dp
